@@ -49,9 +49,11 @@ namespace rkcommon {
 
      private:
       // declaration before taskImpl: ensure initialization before task finishes
+      // NOTE: taskImpl starts the task from its constructor; everything the task
+      //       writes to must be declared (and thus constructed) before it
       std::atomic<bool> jobFinished{false};
-      detail::AsyncTaskImpl<std::function<void()>> taskImpl;
       T retValue;
+      detail::AsyncTaskImpl<std::function<void()>> taskImpl;
     };
 
   }  // namespace tasking
